@@ -73,26 +73,34 @@ func vC08(deferred bool) {
 	// the read made when Ready() was observed returned synced content: the
 	// filtered parent content of some moment, under some filter that had been set
 	seen := <-obsch
-	okAny := false
-	for _, h := range hist {
+	// Events that were queued before the sync are re-applied on top of it, so the
+	// read may show a transient mixture; what it can never do is miss an object
+	// that was in the parent the whole time and accepted by every filter ever set
+	// (which is what a Ready() closed before the sync would do), or show an
+	// object that no parent state held or no filter accepted.
+	okAny := true
+	for _, p := range hist[0] {
+		always := true
+		for _, h := range hist {
+			o, in := vFind(h, p)
+			always = zzverif.And(always, in, o.obj == p.obj)
+		}
 		for _, f := range e.filters {
-			match := true
-			n := 0
+			always = zzverif.And(always, f.Accept(p.obj))
+		}
+		_, present := vFind(seen, p)
+		okAny = zzverif.And(okAny, zzverif.Implies(always, present))
+	}
+	for _, o := range seen {
+		known := false
+		for _, h := range hist {
 			for _, p := range h {
-				o, present := vFind(seen, p)
-				acc := f.Accept(p.obj)
-				if present {
-					n++
-					match = zzverif.And(match, acc, o.obj == p.obj)
-				} else {
-					match = zzverif.And(match, zzverif.Not(acc))
+				for _, f := range e.filters {
+					known = zzverif.Or(known, zzverif.And(p.obj == o.obj, f.Accept(p.obj)))
 				}
 			}
-			if n != len(seen) {
-				match = false
-			}
-			okAny = zzverif.Or(okAny, match)
 		}
+		okAny = zzverif.And(okAny, known)
 	}
 	zzverif.Assert(okAny, "C08/ready-implies-synced")
 	e.observe("C08")
